@@ -32,13 +32,24 @@ def gen(rng, pr):
 def directed():
     hs = []
     for v in [None, "1.4", "1.5", "2.0", "2.1", "2.2"]:
-        for known in (False, True):
+        for known in (False, True, "odd"):
             ops = []
             if v:
                 ops.append(("recv", f"0;255;3;0;2;{v}", ()))
             if known:
                 ops.append(("put_node", 1, 17, "2.0", False))
                 ops.append(("add_child", 1, 1, 0))
+            if known == "odd":
+                # children whose sensor type is in no table / not in the active protocol's table
+                # (restored from a file, or presented: presentation types are not validated), a
+                # node of an unusual type, then reports and requests from them
+                ops += [("add_child", 1, 2, 99), ("add_child", 1, 3, 38), ("recv", "1;4;0;0;39;presented", ()),
+                        ("recv", "1;5;0;0;200;presented", ()), ("put_node", 2, 99, "9.9", False), ("add_child", 2, 0, -1)]
+                for c in (1, 2, 3, 4, 5):
+                    ops += [("recv", f"1;{c};1;0;0;21.5", ()), ("recv", f"1;{c};1;0;47;text", ()), ("recv", f"1;{c};2;0;0;", ()),
+                            ("recv", f"1;{c};1;1;2;1", ())]
+                ops += [("recv", "2;0;1;0;0;1", ()), ("recv", "2;0;2;0;0;", ()), ("recv", "2;255;3;0;0;50", ()),
+                        ("recv", "2;255;3;0;22;5", ()), ("recv", "2;255;3;0;32;5", ())]
             for line in EXTRA_LINES:
                 ops.append(("recv", line, ()))
                 ops.append(("recv", PROBE, ()))
